@@ -90,6 +90,7 @@ type world struct {
 }
 
 var curWorld atomic.Value // *world
+var portSeq int
 var traceOn = os.Getenv("C13_TRACE") != ""
 
 func curGid() int64 {
@@ -595,7 +596,20 @@ func newWorld(budget int32, uid bool, park []string, plan []byte, pdef byte) *wo
 	}
 	w.srv = erpc.NewPeer(erpc.PeerConfig{}, &srvPlugin{w})
 	w.paths = map[string]string{"echo": w.srv.RouteCallFunc(echo), "hold": w.srv.RouteCallFunc(hold)}
-	w.setUp(true)
+	// a port below the ephemeral range: nobody is handed it while the listener is down
+	for i := 0; ; i++ {
+		portSeq++
+		w.addr = fmt.Sprintf("127.0.0.1:%d", 10000+(os.Getpid()*131+portSeq*17)%20000)
+		l, err := Listen(w.srv, w.addr)
+		if err == nil {
+			w.lis = l
+			w.allLis = append(w.allLis, l)
+			break
+		}
+		if i > 500 {
+			Must(err)
+		}
+	}
 	w.cli = erpc.NewPeer(erpc.PeerConfig{RedialTimes: budget, RedialInterval: time.Millisecond, DialTimeout: 2 * time.Second}, &cliPlugin{w})
 	curWorld.Store(w)
 	sess, stat := w.cli.Dial(w.addr)
